@@ -62,6 +62,8 @@ def handle (cmd : String) (args : List String) : Option String :=
     | "ft.ssr", [g, sel] => some (triple (FtRound.setSuperRound g sel))
     | "ft.rops", [op, sel, d] =>
       (ftStateAfter op sel).map fun (m, p, ph, t) => s!"{p} {ph} {t} {FtRound.round m t ph p 0 d}"
+    | "ft.ropsr", [op, sel, d] =>
+      (ftStateAfter op sel).map fun (m, p, ph, t) => toString (FtRound.round m t ph p 0 d)
     -- skrifa side
     | "sk.mul", [a, b] => some (toString (HintMath.mul a b))
     | "sk.div", [a, b] => some (toString (HintMath.div a b))
